@@ -89,8 +89,10 @@ def work(p):
         wit = {"spec": spec}
         if spec.get("real", True):
             plan = m.call_plan(rng, subset)
-            traces = modrun.trace_plan(tmod, path, m, plan, 0)
+            traces = modrun.trace_plan(tmod, path, m, plan, spec.get("k", 0))
             res.count("real_traced_modules")
+            if spec.get("k"):
+                res.count("real_traced_modules_with_typeddicts_on")
         else:
             traces = []
             for f in m.funcs:
@@ -125,7 +127,7 @@ def work(p):
                         res.count("undecodable_rows_skipped")
                 st.conn.close()
                 res.count("modules_through_store")
-            stubs = build_module_stubs_from_traces(traces, 0)
+            stubs = build_module_stubs_from_traces(traces, spec.get("k", 0))
             text = stubs[m.name].render()
         except Exception as e:
             res.violation(f"stub-build-raises:{type(e).__name__}", repr(e)[:300], wit)
@@ -148,8 +150,10 @@ def run(ck):
         r = ck.rng("m", i)
         pat = [bool((i >> b) & 1) for b in range(5)] if i % 3 == 0 else None
         specs.append({"name": f"vfm12_{ck.seed}_{i}", "seed": f"C12:{ck.seed}:{i}", "nfuncs": r.choice([6, 10, 14]), "nested": r.random() < 0.1,
-                      "real": r.random() < 0.6, "pattern": pat, "store": i % 3 == 1})
-    specs.insert(0, {"name": f"vfm12_pinned_nested_{ck.seed}", "seed": "C12:pinned-nested", "nfuncs": 14, "nested": True, "real": True, "pattern": None})
+                      "real": r.random() < 0.6, "pattern": pat, "store": i % 3 == 1, "k": 3 if i % 4 == 2 else 0})
+    specs.insert(0, {"name": f"vfm12_pinned_nested_{ck.seed}", "seed": "C12:pinned-nested", "nfuncs": 14, "nested": True, "real": True, "pattern": None},
+                 )
+    specs.insert(1, {"name": f"vfm12_pinned_nested_td_{ck.seed}", "seed": "C12:pinned-nested-td", "nfuncs": 14, "nested": True, "real": True, "pattern": None, "k": 3})
     k = core.NPROC * (2 if quick else 8)
     for r in core.pmap("vf.props.c12:work", [{"modules": specs[i::k]} for i in range(k)], timeout=3400):
         ck.merge(r)
@@ -158,6 +162,7 @@ def run(ck):
     ck.need("signatures_wrapped", 20, "no signature wrapped across lines")
     ck.need("real_traced_modules", 100)
     ck.need("modules_through_store", 200)
+    ck.need("real_traced_modules_with_typeddicts_on", 100)
     ck.need("modules_with_traced_descriptor_subclass", 50)
     ck.need("modules_with_traced_wrapped_coroutine", 20)
     return ck.finish(
